@@ -13,11 +13,15 @@ pub fn check(tier: Tier) -> Check {
     ];
     let mut parts = parts;
     parts.push(Part::new("C08/acks", json!({"depth": 3, "pids": [1, 65535], "flavour": 1}), 0, tier.pick(40, 300)));
+    // the second connection of a Context whose first one broke in the middle of an inbound packet (3) /
+    // while an acknowledgement was being written (4): exactly one acknowledgement per packet here too
+    parts.push(Part::new("C08/acks", json!({"depth": tier.pick(2, 3), "pids": [4242, 1], "flavour": 3}), 0, tier.pick(40, 300)));
+    parts.push(Part::new("C08/acks", json!({"depth": tier.pick(2, 3), "pids": [4242, 1], "flavour": 4}), 0, tier.pick(40, 300)));
     Check {
         also_rel: false,
         property: "C08",
         level: "model_checking",
-        rule: "all sequences of inbound PUBLISH (QoS 0/1/2 x DUP x packet id x subscription identifier absent / live stream / dropped stream / never registered) and PUBREL (also several packets arriving in one read, repeated PUBRELs, PUBRELs for identifiers never seen, PUBRELs in their three-byte form with reason 0x92 and in full with a reason string), with one client publish interleaved; the wire must show exactly one PUBACK/PUBREC/PUBCOMP per packet with its identifier, in arrival order; non-trivial = at least one acknowledgement was due".into(),
+        rule: "all sequences of inbound PUBLISH (QoS 0/1/2 x DUP x packet id x subscription identifier absent / live stream / dropped stream / never registered) and PUBREL (also several packets arriving in one read, repeated PUBRELs, PUBRELs for identifiers never seen, PUBRELs in their three-byte form with reason 0x92 and in full with a reason string), with one client publish interleaved; the same on the second connection of a Context whose first connection ended inside an inbound packet or with a failed acknowledgement write; the wire must show exactly one PUBACK/PUBREC/PUBCOMP per packet with its identifier, in arrival order; non-trivial = at least one acknowledgement was due".into(),
         assumptions: vec!["the reason code inside the client's acknowledgement is unconstrained".into()],
         parts,
     }
